@@ -69,7 +69,7 @@ Verdict(c) ==
         IF HasExplicitH(c.B0) THEN "skip:graph-already-has-explicit-hydrogens"
         ELSE AllFails(<<
            <<"explicit-form-is-a-different-molecule", FoldEq(c.E, c.B0)>>,
-           <<"explicit-form-still-has-implicit-hydrogens", \A v \in Kept(c.E) : c.E.t[v][1] # HCODE => c.E.t[v][3] = 0>>,
+           <<"explicit-form-still-has-implicit-hydrogens", c.partial \/ \A v \in Kept(c.E) : c.E.t[v][1] # HCODE => c.E.t[v][3] = 0>>,
            <<"explicit-form-changes-total-hydrogen-count", TotalH(c.E) = TotalH(c.B0)>>,
            <<"implicit-again-does-not-restore-the-graph", SameMol(c.I2, c.B0) /\ c.I2.present = c.B0.present>>,
            <<"implicit-again-changes-total-hydrogen-count", TotalH(c.I2) = TotalH(c.B0)>>
